@@ -3,6 +3,7 @@ mod arr;
 mod c01;
 mod c02;
 mod c02s;
+mod c02p;
 mod c02v;
 mod c03;
 mod c03c;
@@ -11,6 +12,8 @@ mod c05c;
 mod c06;
 mod c15;
 mod c16;
+mod c16c;
+mod stress;
 mod c17;
 mod c18;
 mod c19;
@@ -48,6 +51,8 @@ fn exec_line(ctx: &mut Ctx, line: &str) -> String {
     match prop {
         "c01" | "c02" | "c04" | "c05" | "c06" | "c15" | "c16" | "c17" | "c20" => {
             if prop == "c05" && (second == "pes" || second == "pesr") { return c05c::exec(line); }
+            if prop == "c16" && second == "conc" { return c16c::exec(line); }
+            if prop == "c16" && second == "fsrace" { let (_, m) = parse_line(line); return util::guarded(|| stress::exec_c16(&m)); }
             let (v, m) = parse_line(line);
             if second == "cfg" {
                 ctx.arr = None;
@@ -74,8 +79,9 @@ fn exec_line(ctx: &mut Ctx, line: &str) -> String {
         }
         "c03" => c03::exec(line),
         "c02s" => c02s::exec(line),
+        "c02p" => c02p::exec(line),
         "c02v" => c02v::exec(line),
-        "c18" => c18::exec(line),
+        "c18" => if second == "stress" { let (_, m) = parse_line(line); util::guarded(|| stress::exec_c18(&m)) } else { c18::exec(line) },
         "c19" => {
             let (v, m) = parse_line(line);
             if second == "cfg" {
@@ -152,6 +158,8 @@ fn main() {
                 "c01" => c01::generate(&a.tier, a.seed),
                 "c02" => c02::generate(&a.tier, a.seed),
                 "c02s" => c02s::generate(&a.tier, a.seed),
+                "c02p" => c02p::generate(&a.tier, a.seed),
+                "c12n" => c03c::generate_pd(&a.tier, a.seed),
                 "c02v" => c02v::generate(&a.tier, a.seed),
                 "c03" => c03::generate(&a.tier, a.seed),
                 "c04" => c01::generate_c04(&a.tier, a.seed),
